@@ -8,6 +8,8 @@
 import json, os, re, shutil, subprocess, sys, tempfile
 
 ENV = dict(os.environ, GOFLAGS="-mod=mod", GOPROXY="off", GOSUMDB="off", GOTOOLCHAIN="local")
+REPO = os.environ.get("SEED_REPO", "/repo")      # where patches are applied for detection
+VERIF = os.environ.get("SEED_VERIF", "/verif")   # which copy of the machinery runs
 
 
 def sh(cmd, cwd=None, env=None, timeout=3600):
@@ -86,21 +88,21 @@ def confirm(pid, v):
 
 
 def detect(pid, v, checks, tier="quick", seed="1"):
-    rc, out = sh("git status --porcelain --untracked-files=no", cwd="/repo")
+    rc, out = sh("git status --porcelain --untracked-files=no", cwd=REPO)
     if out.strip():
         return {"error": "/repo not clean"}
-    rc, out = sh(f"git apply {deliver(pid, v)}/patch.diff", cwd="/repo")
+    rc, out = sh(f"git apply {deliver(pid, v)}/patch.diff", cwd=REPO)
     if rc != 0:
         return {"error": "patch does not apply to /repo: " + out[-300:]}
     results = {}
     try:
         for cid in checks:
-            rc, out = sh(f"./check {cid} {tier}", cwd="/verif", env=dict(os.environ, VERIF_SEED=seed), timeout=7200)
+            rc, out = sh(f"./check {cid} {tier}", cwd=VERIF, env=dict(os.environ, VERIF_SEED=seed, VERIF_REPO=REPO), timeout=7200)
             sigs = sorted(set(re.findall(r"violation signature: (.*)", out)))
             inc = re.findall(r"^INCONCLUSIVE (.*)", out, re.M)
             results[cid] = {"exit": rc, "signatures": [s[:160] for s in sigs[:6]], "inconclusive": [i[:160] for i in inc[:2]]}
     finally:
-        sh("git checkout -- .", cwd="/repo")
+        sh("git checkout -- .", cwd=REPO)
     return results
 
 
